@@ -33,8 +33,12 @@ def jThresholds (g : Manager) : Json :=
 def jPasha (g : Manager) : Json :=
   jArr (g.systems.map fun s => jArr [jNat s.curIdx, jNat s.curMaxT])
 
+/-- the cost recorded with each rung entry (`CostPromotionRungEntry.cost_val`; compared for cost-aware systems only) -/
+def jRungCosts (g : Manager) : Json :=
+  jArr (g.systems.map fun s => jArr (s.rungs.map fun r => jArr (r.data.map fun e => jArr [jNat e.tid, jRat e.cost])))
+
 def jState (s : Sched) : List (String × Json) :=
-  [("rungs", jRungs s.mgr), ("running", jRunning s.mgr), ("thresholds", jThresholds s.mgr),
+  [("rungs", jRungs s.mgr), ("rung_costs", jRungCosts s.mgr), ("running", jRunning s.mgr), ("thresholds", jThresholds s.mgr),
    ("pasha", jPasha s.mgr), ("cost_offset", jArr (s.costOffset.map fun (t, c) => jArr [jNat t, jRat c])),
    ("task_info", jArr (s.mgr.taskInfo.map fun (t, b) => jArr [jNat t, jNat b])),
    ("active", jArr (s.active.map fun (t, i) => jArr [jNat t, Json.str i.decision.toString, jNat i.bracket]))]
